@@ -153,6 +153,7 @@ func pinned(r *core.Run) {
 	pin(r, "floor-ceil-decimal", "ceil-of-0<x<0.1-returns-0", "CEIL of an exact decimal in (0, 0.1) returns 0", "CEIL(0.005)", "1", "0")
 	pin(r, "floor-ceil-decimal", "floor-of--0.1<x<0-returns-0", "FLOOR of an exact decimal in (-0.1, 0) returns 0", "FLOOR(-0.005)", "-1", "0")
 	pin(r, "abs-sign", "sign-of-0<|x|<0.5-returns-0", "SIGN of a decimal with 0 < |x| < 0.5 returns 0 (the argument is rounded to an integer first)", "SIGN(0.4)", "1", "0")
+	pin(r, "abs-sign", "abs-of-minimum-of-narrow-int-type-wraps", "ABS of the minimum of a narrow integer type wraps (computed in int8/int16/int32)", "ABS(-128)", "128", "-128")
 	pin(r, "bin-oct-hex-conv", "bin-of-negative-concatenates-unpadded-bytes", "BIN of a negative integer prints the bytes without zero padding",
 		"BIN(-148)", "'1111111111111111111111111111111111111111111111111111111101101100'", "'111111111111111111111111111111111111111111111111111111111101100'")
 	pin(r, "crc32", "binary-string-argument-errors", "CRC32 of a binary string raises 'Invalid argument to crc32'", "CRC32(x'616263')", "891568578", "ERR:Invalid argument to crc32")
@@ -167,7 +168,7 @@ func pinned(r *core.Run) {
 		"LEAST(0.74,0)", "0", "f0.74")
 	pin(r, "insert-splice", "multibyte-positions-counted-in-bytes", "INSERT() counts position and length in bytes", "HEX(INSERT('éabc',2,1,'X'))", "'C3A9586263'", "'C358616263'")
 	pin(r, "locate", "multibyte-position-counted-in-bytes", "LOCATE/POSITION return byte positions for multi-byte strings", "LOCATE('b','éb')", "2", "3")
-	pin(r, "locate-from", "multibyte-position-counted-in-bytes", "LOCATE with a start position counts it in bytes", "LOCATE('b','éébb',4)", "4", "5")
+	pin(r, "locate-from", "multibyte-position-counted-in-bytes", "LOCATE with a start position counts it in bytes", "LOCATE('b','éébb',4)", "4", "7")
 	pin(r, "locate", "case-folded-match-under-binary-collation", "LOCATE/POSITION fold case although the collation is utf8mb4_0900_bin (INSTR does not)", "LOCATE('A','xaA')", "3", "2")
 	pin(r, "locate-from", "case-folded-match-under-binary-collation", "LOCATE(…, pos) folds case although the collation is utf8mb4_0900_bin", "LOCATE('A','xaA',2)", "3", "2")
 	pin(r, "mod", "decimal-quotient-longer-than-operands-division-impossible", "MOD/% on exact decimals fails when the integer quotient has more digits than the operands",
